@@ -10,150 +10,28 @@ the right path.  `C12_remove` — cutting a branch out of a consistent tree leav
 `C12_refused` — the operations the API forbids change nothing.  `C12_shape` — relabeling (hence graft / cut) keeps
 the internal shape (names, ids, metadata, child structure) of the moved branch.
 -/
-import EmdModel
+import EmdProofs.ForestCons
+import EmdProofs.ForestOps
 
 set_option linter.unusedSimpArgs false
 
 namespace EmdProps
 open EmdModel
 
-mutual
-/-- every node of the branch records root `r` and its actual treepath -/
-def consistent (r : Option Nat) (path : String) : RNode → Bool
-  | .mk _ _ _ ro tp _ ks => ro == r && tp == some path && consistentKids r path ks
-def consistentKids (r : Option Nat) (path : String) : List RNode → Bool
-  | [] => true
-  | k :: ks => consistent r (path ++ "/" ++ k.name) k && consistentKids r path ks
-end
+/-- C12 (core): after the recursive refresh (`_update_branch`) the whole branch is consistent with its new position -/
+theorem C12_relabel (r : Option Nat) (n : RNode) (path : String) : consistent r path (relabel r path n) = true :=
+  consistent_relabel r n path
 
-mutual
-/-- the shape of a branch: everything except the two cached fields -/
-def shape : RNode → RNode
-  | .mk i n isR _ _ m ks => .mk i n isR none none m (shapeKids ks)
-def shapeKids : List RNode → List RNode
-  | [] => []
-  | k :: ks => shape k :: shapeKids ks
-end
-
-mutual
-/-- C12 (core): after the recursive refresh the whole branch is consistent with its new position -/
-theorem C12_relabel (r : Option Nat) : ∀ (n : RNode) (path : String), consistent r path (relabel r path n) = true
-  | .mk i nm isR ro tp m ks, path => by
-    simp only [relabel, consistent, beq_self_eq_true, Bool.true_and]
-    exact C12_relabelKids r ks path
-theorem C12_relabelKids (r : Option Nat) : ∀ (ks : List RNode) (path : String),
-    consistentKids r path (relabelKids r path ks) = true
-  | [], _ => rfl
-  | k :: ks, path => by
-    simp only [relabelKids, consistentKids, Bool.and_eq_true]
-    refine ⟨?_, C12_relabelKids r ks path⟩
-    have hn : (relabel r (path ++ "/" ++ k.name) k).name = k.name := by cases k; rfl
-    rw [hn]
-    exact C12_relabel r k _
-end
-
-mutual
 /-- a moved branch arrives with its internal shape intact -/
-theorem C12_shape (r : Option Nat) : ∀ (n : RNode) (path : String), shape (relabel r path n) = shape n
-  | .mk i nm isR ro tp m ks, path => by
-    simp only [relabel, shape]
-    rw [C12_shapeKids r ks path]
-theorem C12_shapeKids (r : Option Nat) : ∀ (ks : List RNode) (path : String),
-    shapeKids (relabelKids r path ks) = shapeKids ks
-  | [], _ => rfl
-  | k :: ks, path => by
-    simp only [relabelKids, shapeKids]
-    rw [C12_shape r k _, C12_shapeKids r ks path]
-end
+theorem C12_shape (r : Option Nat) (n : RNode) (path : String) : shape (relabel r path n) = shape n := shape_relabel r n path
 
-theorem relabel_id (r : Option Nat) (path : String) (n : RNode) : (relabel r path n).id = n.id := by cases n; rfl
-theorem relabel_name (r : Option Nat) (path : String) (n : RNode) : (relabel r path n).name = n.name := by cases n; rfl
+/-- C12, add: in a consistent tree, hanging a whole branch under the node with id `pid` keeps the tree consistent -/
+theorem C12_add (r : Option Nat) (t : RNode) (path : String) (pid : Nat) (c : RNode) (h : consistent r path t = true) :
+    consistent r path (updateIn pid (hangF c) t) = true := consistent_hang r t path pid c h
 
-/-- adding one consistent child (replacing a same-named one) keeps the children consistent -/
-theorem consistentKids_setKid (r : Option Nat) (path : String) (c : RNode) : ∀ (ks : List RNode),
-    consistentKids r path ks = true → consistent r (path ++ "/" ++ c.name) c = true →
-    consistentKids r path (setKidR c ks) = true
-  | [], _, hc => by simp [setKidR, consistentKids, hc]
-  | k :: ks, h, hc => by
-    simp only [consistentKids, Bool.and_eq_true] at h
-    simp only [setKidR]
-    split
-    · simp only [consistentKids, Bool.and_eq_true]; exact ⟨hc, h.2⟩
-    · simp only [consistentKids, Bool.and_eq_true]; exact ⟨h.1, consistentKids_setKid r path c ks h.2 hc⟩
-
-mutual
-/-- updating the node with a given id by a function that keeps consistency (at whatever position the node is)
-    keeps the tree consistent -/
-theorem consistent_update (r : Option Nat) (id : Nat) (f : RNode → RNode)
-    (hf : ∀ q p, consistent r q p = true → consistent r q (f p) = true) (hname : ∀ p, (f p).name = p.name) :
-    ∀ (t : RNode) (path : String), consistent r path t = true → consistent r path (updateIn id f t) = true
-  | .mk i n isR ro tp m ks, path, h => by
-    simp only [updateIn]
-    split
-    · exact hf path _ h
-    · simp only [consistent, Bool.and_eq_true] at h ⊢
-      exact ⟨h.1, consistentKids_update r id f hf hname ks path h.2⟩
-theorem consistentKids_update (r : Option Nat) (id : Nat) (f : RNode → RNode)
-    (hf : ∀ q p, consistent r q p = true → consistent r q (f p) = true) (hname : ∀ p, (f p).name = p.name) :
-    ∀ (ks : List RNode) (path : String), consistentKids r path ks = true →
-    consistentKids r path (updateInList id f ks) = true
-  | [], _, _ => rfl
-  | k :: ks, path, h => by
-    simp only [consistentKids, Bool.and_eq_true] at h
-    simp only [updateInList, consistentKids, Bool.and_eq_true]
-    have hn : (updateIn id f k).name = k.name := by
-      cases k with
-      | mk i n isR ro tp m kk =>
-        simp only [updateIn]
-        split
-        · rw [hname]
-        · rfl
-    rw [hn]
-    exact ⟨consistent_update r id f hf hname k _ h.1, consistentKids_update r id f hf hname ks path h.2⟩
-end
-
-/-- C12, add: in a consistent tree, hanging a whole (relabelled) branch under the node `p` found at its recorded
-    position keeps the tree consistent -/
-theorem C12_add (r : Option Nat) (t : RNode) (path : String) (pid : Nat) (c : RNode)
-    (h : consistent r path t = true) :
-    consistent r path (updateIn pid (fun p => p.setKids (setKidR
-        (relabel p.root ((p.treepath.getD "") ++ "/" ++ c.name) c) p.kids)) t) = true := by
-  apply consistent_update r pid _ _ _ t path h
-  · intro q p hp
-    cases p with
-    | mk i n isR ro tp m ks =>
-      simp only [consistent, Bool.and_eq_true, beq_iff_eq] at hp
-      obtain ⟨⟨hro, htp⟩, hk⟩ := hp
-      simp only [RNode.setKids, RNode.root, RNode.treepath, RNode.kids, consistent, Bool.and_eq_true, beq_iff_eq]
-      refine ⟨⟨hro, htp⟩, ?_⟩
-      subst hro; subst htp
-      simp only [Option.getD_some]
-      apply consistentKids_setKid _ _ _ ks hk
-      rw [relabel_name]
-      exact C12_relabel _ c _
-  · intro p; cases p; rfl
-
-mutual
 /-- C12, cut side: removing a branch from a consistent tree leaves a consistent tree -/
-theorem C12_remove (r : Option Nat) (id : Nat) : ∀ (t : RNode) (path : String), consistent r path t = true →
-    consistent r path (removeIn id t) = true
-  | .mk i n isR ro tp m ks, path, h => by
-    simp only [consistent, Bool.and_eq_true] at h
-    simp only [removeIn, consistent, Bool.and_eq_true]
-    exact ⟨h.1, C12_removeKids r id ks path h.2⟩
-theorem C12_removeKids (r : Option Nat) (id : Nat) : ∀ (ks : List RNode) (path : String),
-    consistentKids r path ks = true → consistentKids r path (removeInList id ks) = true
-  | [], _, _ => rfl
-  | k :: ks, path, h => by
-    simp only [consistentKids, Bool.and_eq_true] at h
-    simp only [removeInList]
-    split
-    · exact h.2
-    · simp only [consistentKids, Bool.and_eq_true]
-      have hn : (removeIn id k).name = k.name := by cases k; rfl
-      rw [hn]
-      exact ⟨C12_remove r id k _ h.1, C12_removeKids r id ks path h.2⟩
-end
+theorem C12_remove (r : Option Nat) (id : Nat) (t : RNode) (path : String) (h : consistent r path t = true) :
+    consistent r path (removeIn id t) = true := consistent_remove r id t path h
 
 /-- the operations the API forbids fail without changing anything: adding to an unrooted node -/
 theorem C12_refused_unrooted_parent (h : Heap) (pid cid : Nat) (p c : RNode)
@@ -176,6 +54,256 @@ theorem C12_refused_graft_unrooted (h : Heap) (sid rid : Nat) (s r : RNode) (opt
   | inr e =>
     simp only [graftInto, hs, hr, e]
     cases s.root <;> rfl
+
+/-! ## The whole-forest invariant over every history of tree operations -/
+
+/-- the tree-building operations of the property's quantifier -/
+inductive TOp where
+  | mkRoot (name : String)
+  | mkNode (name : String)
+  | addMd (nid : Nat) (name content : String)
+  | add (pid cid : Nat)
+  | force (pid cid : Nat)
+  | graft (recv scion : Nat) (opt : MdOpt)
+  | cut (nid : Nat) (opt : MdOpt)
+  deriving Repr
+
+def applyOp (h : Heap) : TOp → Heap
+  | .mkRoot n => mkRoot h n
+  | .mkNode n => mkNode h n
+  | .addMd i n c => addMd h i n c
+  | .add p c => (addToTree h p c).1
+  | .force p c => (forceAdd h p c).1
+  | .graft r s o => (graft h r s o).1
+  | .cut n o => (cut h n o).1
+
+/-- the receiver is not inside the branch that moves -/
+def noCycleB (h : Heap) (scionId recvId : Nat) : Bool :=
+  match h.find scionId with
+  | some s => !(idsK s).contains recvId
+  | none => true
+
+/-- the side conditions of the property's quantifier: nodes are distinctly named (new names are fresh, also the name
+    `cut` gives the new Root), and a node is never grafted onto its own descendant -/
+def legal (h : Heap) : TOp → Bool
+  | .mkRoot n => !(namesL h.comps).contains n
+  | .mkNode n => !(namesL h.comps).contains n
+  | .addMd _ _ _ => true
+  | .add _ _ => true
+  | .force p c => noCycleB h c p
+  | .graft r s _ => noCycleB h s r
+  | .cut n _ =>
+    match h.find n with
+    | some x => match x.root.bind h.find with
+      | some r => !(namesL h.comps).contains (r.name ++ "_cut_" ++ x.name)
+      | none => true
+    | none => true
+
+def legalSeq (h : Heap) : List TOp → Bool
+  | [] => true
+  | op :: ops => legal h op && legalSeq (applyOp h op) ops
+
+theorem noCycle_of_B (h : Heap) (a b : Nat) (hb : noCycleB h a b = true) : noCycle h a b := by
+  intro s hs
+  simp only [noCycleB, hs, Bool.not_eq_true', List.contains_eq_mem, decide_eq_false_iff_not] at hb
+  exact hb
+
+/-- C12: every operation keeps the invariant -/
+theorem C12_step (h : Heap) (op : TOp) (inv : Inv h) (hl : legal h op = true) : Inv (applyOp h op) := by
+  cases op with
+  | mkRoot n =>
+    simp only [legal, Bool.not_eq_true', List.contains_eq_mem, decide_eq_false_iff_not] at hl
+    exact (mkRoot_inv h n inv hl).1
+  | mkNode n =>
+    simp only [legal, Bool.not_eq_true', List.contains_eq_mem, decide_eq_false_iff_not] at hl
+    exact (mkNode_inv h n inv hl).1
+  | addMd i n c => exact (addMd_inv h i n c inv).1
+  | add p c => exact (addToTree_inv h p c inv).1
+  | force p c => exact (forceAdd_inv h p c inv (noCycle_of_B h c p hl)).1
+  | graft r s o => exact (graftInto_inv h s r o inv (noCycle_of_B h s r hl)).1
+  | cut n o =>
+    refine (cut_inv h n o inv ?_).1
+    intro x r hx hr
+    simp only [legal, hx, hr, Bool.not_eq_true', List.contains_eq_mem, decide_eq_false_iff_not] at hl
+    exact hl
+
+/-- C12: after ANY finite sequence of add, force-add, graft, cut (and object creation / metadata assignment) the forest
+    is well formed -/
+theorem C12_history (ops : List TOp) : ∀ (h : Heap), Inv h → legalSeq h ops = true → Inv (ops.foldl applyOp h) := by
+  induction ops with
+  | nil => intro h inv _; exact inv
+  | cons op ops ih =>
+    intro h inv hl
+    simp only [legalSeq, Bool.and_eq_true] at hl
+    exact ih (applyOp h op) (C12_step h op inv hl.1) hl.2
+
+/-- …starting from nothing -/
+theorem C12_history_from_empty (ops : List TOp) (hl : legalSeq {} ops = true) : Inv (ops.foldl applyOp {}) :=
+  C12_history ops {} Inv_empty hl
+
+/-- C12: no node is lost or duplicated — add, force-add and graft keep exactly the same (id, name) multiset; cut adds
+    exactly the new Root -/
+theorem C12_nodes_conserved (h : Heap) (op : TOp) (inv : Inv h) (hl : legal h op = true) :
+    (keysL (applyOp h op).comps).Perm (keysL h.comps) ∨
+    ∃ nm, (keysL (applyOp h op).comps).Perm (keysL h.comps ++ [(h.nextNode, nm)]) := by
+  cases op with
+  | mkRoot n =>
+    simp only [legal, Bool.not_eq_true', List.contains_eq_mem, decide_eq_false_iff_not] at hl
+    exact Or.inr ⟨n, by rw [applyOp, (mkRoot_inv h n inv hl).2]⟩
+  | mkNode n =>
+    simp only [legal, Bool.not_eq_true', List.contains_eq_mem, decide_eq_false_iff_not] at hl
+    exact Or.inr ⟨n, by rw [applyOp, (mkNode_inv h n inv hl).2]⟩
+  | addMd i n c => exact Or.inl (by rw [applyOp, (addMd_inv h i n c inv).2])
+  | add p c => exact Or.inl (addToTree_inv h p c inv).2
+  | force p c => exact Or.inl (forceAdd_inv h p c inv (noCycle_of_B h c p hl)).2
+  | graft r s o => exact Or.inl (graftInto_inv h s r o inv (noCycle_of_B h s r hl)).2
+  | cut n o =>
+    refine (cut_inv h n o inv ?_).2
+    intro x r hx hr
+    simp only [legal, hx, hr, Bool.not_eq_true', List.contains_eq_mem, decide_eq_false_iff_not] at hl
+    exact hl
+
+/-! ### what the invariant says about every node -/
+
+/-- every node has exactly one place: object ids occur once in the whole forest -/
+theorem C12_one_place (h : Heap) (inv : Inv h) : (idsL h.comps).Nodup := inv.ok.ids
+
+/-- every node reachable from a Root reports that Root as its root -/
+theorem C12_reports_root (h : Heap) (inv : Inv h) (c x : RNode) (id : Nat) (hc : c ∈ h.comps) (hr : c.isRoot = true)
+    (hf : findIn id c = some x) : x.root = some c.id :=
+  root_of_findIn _ id c x "" (inv.ok.roots c hc hr) hf
+
+/-- a top-level object that is not a Root is a single unrooted node -/
+theorem C12_unrooted_alone (h : Heap) (inv : Inv h) (c : RNode) (hc : c ∈ h.comps) (hr : c.isRoot = false) :
+    c.root = none ∧ c.kids = [] := inv.ok.lone c hc hr (by simp)
+
+/-- the treepath string of the node reached by the names `ps` from a node whose treepath is `path` -/
+def pathFrom (path : String) (ps : List String) : String := ps.foldl (fun a n => a ++ "/" ++ n) path
+
+theorem find?_name_head (k : RNode) (ks : List RNode) : (k :: ks).find? (fun x => x.name = k.name) = some k := by
+  simp [List.find?]
+
+theorem find?_name_skip (k : RNode) (ks : List RNode) (n : String) (h : k.name ≠ n) :
+    (k :: ks).find? (fun x => x.name = n) = ks.find? (fun x => x.name = n) := by
+  simp [List.find?, h]
+
+theorem walkKids_cons_skip (k : RNode) (ks : List RNode) (n : String) (rest : List String) (h : k.name ≠ n) :
+    walkKids (k :: ks) (n :: rest) = walkKids ks (n :: rest) := by
+  cases rest with
+  | nil => simp only [walkKids]; exact find?_name_skip k ks n h
+  | cons r rs => simp only [walkKids, find?_name_skip k ks n h]
+
+theorem name_mem_namesL {ks : List RNode} {k : RNode} (hk : k ∈ ks) : k.name ∈ namesL ks :=
+  List.mem_map.mpr ⟨_, mem_keysL_of_mem hk (self_mem_keys k), rfl⟩
+
+mutual
+/-- every node found below a consistent branch sits at a position whose names, walked down the `_branch` dictionaries,
+    lead to exactly that node, and the treepath it records is that path -/
+theorem pos_of_findIn (r : Option Nat) (id : Nat) : ∀ (t x : RNode) (path : String), consistent r path t = true →
+    ((keys t).map (·.2)).Nodup → t.id ≠ id → findIn id t = some x →
+    ∃ n0 rest, (∃ k ∈ t.kids, k.name = n0) ∧ walkKids t.kids (n0 :: rest) = some x ∧
+      x.treepath = some (pathFrom path (n0 :: rest))
+  | .mk i n isR ro tp m ks, x, path, h, hn, hne, hf => by
+    simp only [consistent, Bool.and_eq_true] at h
+    simp only [RNode.id] at hne
+    simp only [findIn, if_neg hne] at hf
+    simp only [keys, List.map_cons, List.nodup_cons] at hn
+    exact pos_of_findInList r id ks x path h.2 hn.2 hf
+theorem pos_of_findInList (r : Option Nat) (id : Nat) : ∀ (ks : List RNode) (x : RNode) (path : String),
+    consistentKids r path ks = true → (namesL ks).Nodup → findInList id ks = some x →
+    ∃ n0 rest, (∃ k ∈ ks, k.name = n0) ∧ walkKids ks (n0 :: rest) = some x ∧ x.treepath = some (pathFrom path (n0 :: rest))
+  | [], _, _, _, _, hf => by simp [findInList] at hf
+  | k :: ks, x, path, h, hn, hf => by
+    simp only [consistentKids, Bool.and_eq_true] at h
+    simp only [namesL_cons] at hn
+    have hnd := List.nodup_append.mp hn
+    simp only [findInList] at hf
+    split at hf
+    · rename_i y hy
+      cases hf
+      by_cases hk : k.id = id
+      · -- the child itself
+        have hx : x = k := findIn_top_id id k x hk hy
+        subst hx
+        refine ⟨x.name, [], ⟨x, List.mem_cons_self, rfl⟩, ?_, ?_⟩
+        · simp only [walkKids]; exact find?_name_head x ks
+        · cases x with
+          | mk i n isR ro tp m kk =>
+            simp only [consistent, Bool.and_eq_true, beq_iff_eq, RNode.name] at h
+            simp only [RNode.treepath, RNode.name, pathFrom, List.foldl_cons, List.foldl_nil]
+            exact h.1.1.2
+      · -- deeper, below this child
+        obtain ⟨n0, rest, ⟨k', hk', hk'n⟩, hw, htp⟩ := pos_of_findIn r id k x _ h.1 hnd.1 hk hy
+        refine ⟨k.name, n0 :: rest, ⟨k, List.mem_cons_self, rfl⟩, ?_, ?_⟩
+        · simp only [walkKids, find?_name_head k ks]
+          exact hw
+        · rw [htp]; simp [pathFrom]
+    · obtain ⟨n0, rest, ⟨k', hk', hk'n⟩, hw, htp⟩ := pos_of_findInList r id ks x path h.2 hnd.2.1 hf
+      refine ⟨n0, rest, ⟨k', List.mem_cons_of_mem _ hk', hk'n⟩, ?_, htp⟩
+      have hne : k.name ≠ n0 := by
+        intro e
+        have h1 : k.name ∈ (keys k).map (·.2) := List.mem_map.mpr ⟨_, self_mem_keys k, rfl⟩
+        have h2 : k'.name ∈ namesL ks := name_mem_namesL hk'
+        exact hnd.2.2 _ h1 _ h2 (e.trans hk'n.symm)
+      rw [walkKids_cons_skip k ks n0 rest hne]
+      exact hw
+end
+
+theorem nodup_names_of_mem {cs : List RNode} (hn : (namesL cs).Nodup) {c : RNode} (hc : c ∈ cs) : ((keys c).map (·.2)).Nodup := by
+  induction cs with
+  | nil => cases hc
+  | cons k ks ih =>
+    simp only [namesL_cons] at hn
+    have hnd := List.nodup_append.mp hn
+    cases hc with
+    | head => exact hnd.1
+    | tail _ h' => exact ih hnd.2.1 h'
+
+/-- with unique ids, what is found inside a top-level object is what `find` returns for the whole forest -/
+theorem find_via_top {cs : List RNode} (hn : (idsL cs).Nodup) {c x : RNode} (id : Nat) (hc : c ∈ cs)
+    (hf : findIn id c = some x) : findInList id cs = some x := by
+  induction cs with
+  | nil => cases hc
+  | cons k ks ih =>
+    simp only [idsL_cons] at hn
+    have hnd := List.nodup_append.mp hn
+    simp only [findInList]
+    cases hc with
+    | head => rw [hf]
+    | tail _ hc' =>
+      have hmem : id ∈ idsL ks := by
+        obtain ⟨h1, h2⟩ := findIn_some id c x hf
+        exact mem_idsL_of_mem hc' (List.mem_map.mpr ⟨(x.id, x.name), h2 _ (self_mem_keys x), h1⟩)
+      have : id ∉ idsK k := fun hk => hnd.2.2 _ hk _ hmem rfl
+      rw [findIn_none_of_not_mem _ _ this]
+      exact ih hnd.2.1 hc'
+
+/-- C12: looking up a node's own path from its root returns that node.  For every node `x` below a Root `c` there are
+    names `ps` such that the absolute lookup `x.get_from_tree('/' + '/'.join(ps))` returns `x` itself, the walk from the
+    Root down the `_branch` dictionaries reaches `x`, and the treepath `x` records is exactly that path. -/
+theorem C12_lookup_own_path (h : Heap) (inv : Inv h) (c x : RNode) (id : Nat) (hc : c ∈ h.comps) (hr : c.isRoot = true)
+    (hne : c.id ≠ id) (hf : findIn id c = some x) :
+    ∃ ps, ps ≠ [] ∧ walkKids c.kids ps = some x ∧ x.treepath = some (pathFrom "" ps) ∧
+      getFromTree h x.id true ps = .node x.id := by
+  obtain ⟨n0, rest, _, hw, htp⟩ := pos_of_findIn _ id c x "" (inv.ok.roots c hc hr) (nodup_names_of_mem inv.ok.names hc) hne hf
+  refine ⟨n0 :: rest, by simp, hw, htp, ?_⟩
+  have hxid : x.id = id := (findIn_some id c x hf).1
+  have hfx : h.find x.id = some x := by rw [hxid]; exact find_via_top inv.ok.ids id hc hf
+  have hroot : x.root = some c.id := root_of_findIn _ id c x "" (inv.ok.roots c hc hr) hf
+  have hfc : h.find c.id = some c := findInList_top h.comps c inv.ok.ids hc
+  simp only [getFromTree, hfx, hroot, Option.bind, hfc, List.isEmpty_cons, Bool.false_and, Bool.false_eq_true, if_false,
+    if_true, hw]
+
+-- non-vacuity of the history theorem: a history with adds, a force-add of a rooted node, grafts (from a node, from a Root)
+-- and cuts, all legal; the final forest satisfies the invariant by `C12_history_from_empty`
+def exHistory : List TOp :=
+  [.mkRoot "r", .mkNode "a", .add 0 1, .mkNode "b", .add 1 2, .mkNode "c", .add 1 3, .addMd 0 "cal" "x",
+   .mkRoot "q", .mkNode "d", .add 4 5, .graft 5 1 .copyover, .force 0 2, .cut 3 .yes, .graft 0 4 .overwrite, .add 5 0]
+
+example : legalSeq {} exHistory = true := by decide +kernel
+example : Inv (exHistory.foldl applyOp {}) := C12_history_from_empty exHistory (by decide +kernel)
+-- …and the side condition matters: grafting a node under its own descendant is not legal
+example : legalSeq {} [.mkRoot "r", .mkNode "a", .add 0 1, .mkNode "b", .add 1 2, .graft 2 1 .yes] = false := by decide +kernel
 
 -- non-vacuity: a concrete three-level branch moved under another tree is consistent there
 def exBranch : RNode :=
